@@ -245,7 +245,7 @@ def _rejection(ctx, m, t, kw, exc, label, script, n):
 
 def run_shard(ctx):
     rng = ctx.rng('c04')
-    count = ctx.pick(10, 150)
+    count = ctx.pick(40, 600)
     rp = gen.RandomPrograms(rng, max_depth=2, max_eqs=4, max_names=6, offsets=(-3, -2, -1, -1, 0, 0, 0, 1, 2, 3),
                             lhs_offsets=(0, 0, 0, 0, 0, -1, 1), allow=('num', 'neg', 'bin', 'paren', 'call1', 'call2', 'ifexp', 'cmp'),
                             literals=('1', '2', '0.5', '3.25'))
